@@ -109,7 +109,7 @@ def episode(sim, p, ep):
         raise RuntimeError("server accept failed")
     nphases = 1 + sim.choose(3)
     end_kind = sim.choose(4)      # 0: nothing, 1: server EOF, 2: server close, 3: eof then close
-    fileno_at = sim.choose(3)     # 0: before any data, 1: racing phase 0, 2: after phase 0 quiesced
+    fileno_at = sim.choose(4)     # 0: before any data, 1: racing phase 0, 2: after phase 0 quiesced, 3: only after EOF/close (or the last phase)
     fdbox = []
     desc = {"phases": [], "end": end_kind, "fileno_at": fileno_at}
 
@@ -172,28 +172,55 @@ def episode(sim, p, ep):
             return hang(sim, tasks, desc)
         if ph == 0 and fileno_at == 2:
             call_fileno()
-        check(sim, ch, fdbox[0], "ep%d phase%d" % (ep, ph), desc)
+        if fdbox:
+            check(sim, ch, fdbox[0], "ep%d phase%d" % (ep, ph), desc)
     if end_kind:
         def ender():
             if end_kind in (1, 3):
                 sch.shutdown_write()
             if end_kind in (2, 3):
                 sch.close()
-        # race the end with a final reader
+        # race the end with a final (partial) reader
+        dprog = [(sim.choose(2), (1, 5, 1000)[sim.choose(3)]) for _ in range(sim.choose(3))]
+
         def drain():
             try:
                 ch.settimeout(0.0)
-                if ch.recv_ready():
-                    ch.recv(1000)
-                if ch.recv_stderr_ready():
-                    ch.recv_stderr(1000)
+                for which, n in dprog:
+                    if which == 0 and ch.recv_ready():
+                        ch.recv(n)
+                    if which == 1 and ch.recv_stderr_ready():
+                        ch.recv_stderr(n)
             except socket.timeout:
                 pass
         tasks = [sim.spawn(ender, "srv-end"), sim.spawn(drain, "drain")]
         if not ssh.quiesce(sim, [p.link], tasks):
             return hang(sim, tasks, desc)
+        if fileno_at == 3:
+            call_fileno()
+            sim.probe("fileno_first_called_after_eof")
         check(sim, ch, fdbox[0], "ep%d end" % ep, desc)
         sim.probe("eof_or_close_checked")
+        # drain both streams completely after EOF/close: the descriptor must stay readable
+        def drain_all():
+            try:
+                ch.settimeout(0.0)
+                for _ in range(50):
+                    if not (ch.recv_ready() or ch.recv_stderr_ready()):
+                        break
+                    if ch.recv_ready():
+                        ch.recv(1000)
+                    if ch.recv_stderr_ready():
+                        ch.recv_stderr(1000)
+            except socket.timeout:
+                pass
+        tasks = [sim.spawn(drain_all, "drain-all")]
+        if not ssh.quiesce(sim, [p.link], tasks):
+            return hang(sim, tasks, desc)
+        check(sim, ch, fdbox[0], "ep%d after-eof-drained" % ep, desc)
+    elif fileno_at == 3:
+        call_fileno()
+        check(sim, ch, fdbox[0], "ep%d late-fileno" % ep, desc)
     ch.close()
     sch.close()
     return desc
